@@ -34,20 +34,42 @@ static int g_home[16];
 static int g_keys[16] = {0, 1, 2, 3, 4, 5, 6, 7, 8, 9, 10, 11, 12, 13, 14, 15};
 static unsigned long lh_hash(const void *k) { return (unsigned long)g_home[*(const int *)k]; }
 static int lh_eq(const void *a, const void *b) { return *(const int *)a == *(const int *)b; }
+static const char *g_skeys[16] = {"k0", "k1", "k2", "k3", "k4", "k5", "k6", "k7", "k8", "k9", "k10", "k11", "k12", "k13", "k14", "k15"};
+// entry free function: every entry is handed over exactly once, when it is deleted or the table is freed
+static std::vector<std::pair<const void *, long>> g_lh_freed;
+static void lh_free_cb(struct lh_entry *e) { g_lh_freed.emplace_back(lh_entry_k(e), (long)(intptr_t)lh_entry_v(e)); }
 
 struct LH {
 	Ctx &ctx;
 	lh_table *t;
 	std::vector<std::pair<int, long>> m; // ordered (key, value)
+	std::map<int, bool> konst;           // key -> inserted with JSON_C_OBJECT_ADD_CONSTANT_KEY
+	std::vector<std::pair<const void *, long>> want_freed;
+	int kind = 0; // 0: harness hash over int keys, 1: lh_kptr_table_new (the same key objects, by address), 2: lh_kchar_table_new (string keys)
 	std::string trace;
 	uint64_t h = 0;
 	bool f_tomb_probe = false, f_resize = false, f_wrap = false;
 	std::set<int> deleted_slots_homes;
-	LH(Ctx &c, int size) : ctx(c) { t = lh_table_new(size, nullptr, lh_hash, lh_eq); }
+	LH(Ctx &c, int size, int kind_ = 0) : ctx(c), kind(kind_)
+	{
+		g_lh_freed.clear();
+		t = kind == 1 ? lh_kptr_table_new(size, lh_free_cb) : kind == 2 ? lh_kchar_table_new(size, lh_free_cb) : lh_table_new(size, lh_free_cb, lh_hash, lh_eq);
+	}
 	~LH()
 	{
 		if (t)
 			lh_table_free(t);
+	}
+	const void *kp(int k) const { return kind == 2 ? (const void *)g_skeys[k] : (const void *)&g_keys[k]; }
+	int kid(const void *p) const { return kind == 2 ? atoi((const char *)p + 1) : *(const int *)p; }
+	void finish()
+	{
+		for (auto &kv : m)
+			want_freed.emplace_back(kp(kv.first), kv.second);
+		lh_table_free(t);
+		t = nullptr;
+		if (g_lh_freed != want_freed)
+			ctx.fail("free-callback", "entry free function calls differ from the model: " + str(g_lh_freed.size()) + " calls, model " + str(want_freed.size()) + " (or other entries / another order)");
 	}
 	void log(const std::string &s)
 	{
@@ -72,8 +94,11 @@ struct LH {
 		{
 			if (i >= m.size())
 				ctx.fail("iteration", std::string(op) + ": forward iteration yields more than " + str(m.size()) + " entries");
-			if (*(const int *)lh_entry_k(e) != m[i].first || (long)(intptr_t)lh_entry_v(e) != m[i].second)
-				ctx.fail("iteration", std::string(op) + ": forward entry " + str(i) + " is key " + str(*(const int *)lh_entry_k(e)) +
+			// (the accessor returns the option bit, 4, not the documented 1: only its truth value is compared)
+			if ((lh_entry_k_is_constant(e) != 0) != konst[m[i].first])
+				ctx.fail("constant-flag", std::string(op) + ": entry of key " + str(m[i].first) + " reports k_is_constant=" + str(lh_entry_k_is_constant(e)));
+			if (kid(lh_entry_k(e)) != m[i].first || (long)(intptr_t)lh_entry_v(e) != m[i].second)
+				ctx.fail("iteration", std::string(op) + ": forward entry " + str(i) + " is key " + str(kid(lh_entry_k(e))) +
 				                          " value " + str((long)(intptr_t)lh_entry_v(e)) + ", model has key " + str(m[i].first) + " value " + str(m[i].second));
 		}
 		if (i != m.size())
@@ -84,16 +109,31 @@ struct LH {
 			if (i == 0)
 				ctx.fail("iteration", std::string(op) + ": backward iteration too long");
 			i--;
-			if (*(const int *)lh_entry_k(e) != m[i].first)
+			if (kid(lh_entry_k(e)) != m[i].first)
 				ctx.fail("iteration", std::string(op) + ": backward order differs at " + str(i));
 		}
 		if (i != 0)
 			ctx.fail("iteration", std::string(op) + ": backward iteration too short");
-		for (int k = 0; k < 8; k++)
+		// the iteration macros
+		i = 0;
+		lh_foreach(t, e)
+		{
+			if (i >= m.size() || kid(lh_entry_k(e)) != m[i].first)
+				ctx.fail("iteration", std::string(op) + ": lh_foreach differs from the model at position " + str(i));
+			i++;
+		}
+		if (i != m.size())
+			ctx.fail("iteration", std::string(op) + ": lh_foreach yields " + str(i) + " entries, model " + str(m.size()));
+		if (g_lh_freed != want_freed)
+			ctx.fail("free-callback", std::string(op) + ": entry free function was called " + str(g_lh_freed.size()) + " times so far, model " + str(want_freed.size()) + " (or with other entries)");
+		for (int k = 0; k < 16; k++)
 		{
 			void *v = (void *)(intptr_t)-77;
-			int found = lh_table_lookup_ex(t, &g_keys[k], &v);
+			int found = lh_table_lookup_ex(t, kp(k), &v);
 			int idx = find(k);
+			struct lh_entry *eh = lh_table_lookup_entry_w_hash(t, kp(k), lh_get_hash(t, kp(k)));
+			if ((eh != nullptr) != (idx >= 0) || (eh && eh != lh_table_lookup_entry(t, kp(k))))
+				ctx.fail("lookup", std::string(op) + ": lookup_entry_w_hash of key " + str(k) + " disagrees with the model / with lookup_entry");
 			if ((found != 0) != (idx >= 0))
 				ctx.fail("lookup", std::string(op) + ": lookup of key " + str(k) + " says " + (found ? "present" : "absent") + ", model " +
 				                       (idx >= 0 ? "present" : "absent"));
@@ -106,7 +146,7 @@ struct LH {
 	void put(int k, long v, bool w_hash)
 	{
 		int size0 = t->size;
-		struct lh_entry *e = lh_table_lookup_entry(t, &g_keys[k]);
+		struct lh_entry *e = lh_table_lookup_entry(t, kp(k));
 		int idx = find(k);
 		if ((e != nullptr) != (idx >= 0))
 			ctx.fail("lookup", "lookup_entry of key " + str(k) + " disagrees with the model before insert");
@@ -118,11 +158,13 @@ struct LH {
 		}
 		else
 		{
-			int r = w_hash ? lh_table_insert_w_hash(t, &g_keys[k], (void *)(intptr_t)v, lh_get_hash(t, &g_keys[k]), 0)
-			               : lh_table_insert(t, &g_keys[k], (void *)(intptr_t)v);
+			bool kc = w_hash && (v & 1);
+			int r = w_hash ? lh_table_insert_w_hash(t, kp(k), (void *)(intptr_t)v, lh_get_hash(t, kp(k)), kc ? JSON_C_OBJECT_ADD_CONSTANT_KEY : 0)
+			               : lh_table_insert(t, kp(k), (void *)(intptr_t)v);
 			if (r != 0)
 				ctx.fail("retval", "insert returned " + str(r));
 			m.emplace_back(k, v);
+			konst[k] = kc;
 			log("insert k" + str(k));
 			if (!deleted_slots_homes.empty())
 				f_tomb_probe = true;
@@ -137,16 +179,17 @@ struct LH {
 		int r;
 		if (by_entry)
 		{
-			struct lh_entry *e = lh_table_lookup_entry(t, &g_keys[k]);
+			struct lh_entry *e = lh_table_lookup_entry(t, kp(k));
 			if ((e != nullptr) != (idx >= 0))
 				ctx.fail("lookup", "lookup_entry of key " + str(k) + " disagrees with the model before delete");
 			r = e ? lh_table_delete_entry(t, e) : -1;
 		}
 		else
-			r = lh_table_delete(t, &g_keys[k]);
+			r = lh_table_delete(t, kp(k));
 		log("delete k" + str(k));
 		if (idx >= 0)
 		{
+			want_freed.emplace_back(kp(k), m[idx].second);
 			if (r != 0)
 				ctx.fail("retval", "delete of a present key returned " + str(r));
 			m.erase(m.begin() + idx);
@@ -155,6 +198,35 @@ struct LH {
 		else if (r == 0)
 			ctx.fail("retval", "delete of an absent key returned 0");
 		verify("delete");
+	}
+	void sweep(unsigned mask)
+	{
+		// delete a chosen subset while iterating with the macro meant for that
+		struct lh_entry *e, *tmp;
+		size_t pos = 0;
+		std::vector<std::pair<int, long>> keep;
+		lh_foreach_safe(t, e, tmp)
+		{
+			if (pos >= m.size())
+				ctx.fail("iteration", "lh_foreach_safe yields more entries than the model has");
+			if (kid(lh_entry_k(e)) != m[pos].first)
+				ctx.fail("iteration", "lh_foreach_safe with deletions: position " + str(pos) + " is key " + str(kid(lh_entry_k(e))) + ", model " + str(m[pos].first));
+			if ((mask >> (pos % 16)) & 1)
+			{
+				want_freed.emplace_back(kp(m[pos].first), m[pos].second);
+				deleted_slots_homes.insert(g_home[m[pos].first]);
+				if (lh_table_delete_entry(t, e) != 0)
+					ctx.fail("retval", "delete_entry during lh_foreach_safe failed");
+			}
+			else
+				keep.push_back(m[pos]);
+			pos++;
+		}
+		if (pos != m.size())
+			ctx.fail("iteration", "lh_foreach_safe with deletions visited " + str(pos) + " entries, model " + str(m.size()));
+		m = keep;
+		log("sweep " + str(mask));
+		verify("foreach_safe-delete");
 	}
 	void resize(int ns)
 	{
@@ -210,6 +282,7 @@ static void run_lh_small(Ctx &ctx, uint64_t idx, int maxlen)
 		default: t.verify("lookup"); break;
 		}
 	}
+	t.finish();
 	if (t.f_tomb_probe || t.f_resize)
 		ctx.nontrivial(idx);
 	ctx.note("table size " + str(size) + " homes " + str(g_home[0]) + "," + str(g_home[1]) + "," + str(g_home[2]) + "\n" + t.trace);
@@ -228,20 +301,29 @@ static void run_lh(Choices &c, Ctx &ctx)
 		default: g_home[k] = (int)c.range(0, 1000); break;
 		}
 	}
-	LH t(ctx, size);
+	int kind = (int)c.pick({6, 2, 2});
+	if (kind)
+		nkeys = (int)c.range(2, 16);
+	LH t(ctx, size, kind);
 	size_t nops = 1 + c.len(40);
 	long val = 1;
 	for (size_t i = 0; i < nops; i++)
 	{
 		SpanGuard g(c);
 		int k = (int)c.pickn(nkeys);
-		switch (c.pick({10, 8, 1}))
+		switch (c.pick({20, 16, 2, 1}))
 		{
 		case 0: t.put(k, val++, c.coin(50)); break;
 		case 1: t.del(k, c.coin(50)); break;
-		default: t.resize(std::max<int>(1, (int)t.m.size() * 2 + (int)c.range(0, 3))); break;
+		case 2: t.resize(std::max<int>(1, (int)t.m.size() * 2 + (int)c.range(0, 3))); break;
+		default: t.sweep((unsigned)c.range(0, 65535)); break;
 		}
 	}
+	t.finish();
+	if (kind == 1)
+		ctx.label("lh_kptr_table");
+	if (kind == 2)
+		ctx.label("lh_kchar_table");
 	if (t.f_tomb_probe)
 		ctx.label("insert_after_delete");
 	if (t.f_resize)
